@@ -10,6 +10,7 @@ import sys
 from fractions import Fraction
 
 from lib import refexpr as R
+from lib import parts as P
 from lib.common import Part, Run, panic_sig
 from lib.probe import shard_map, split, worker_probe, nproc, HarnessError
 from lib.registry import Registry, num_val, dims_key, render_name, KEYWORDS
@@ -158,6 +159,22 @@ def judge(part, probe, reg, query, lv, rv, tag, roundtrip=None):
                        dict(wit, expected=str(want), got=str(got)),
                        "x * t != v")
         return None
+    # "converting x t back returns v": the target as the reply states it (constant factor, divisor and unit
+    # names, read the way rink reads names) times x must be the source value
+    np_ = rep["value"]
+    try:
+        uv, ud = P.unit_product(reg, P.structured_units(np_))
+        f = Fraction(int(np_["factor"])) if np_.get("factor") else Fraction(1)
+        dv = Fraction(int(np_["divfactor"])) if np_.get("divfactor") else Fraction(1)
+        if dv != 0 and (got * f * uv / dv != lv.v or dims_key(ud) != dims_key(lv.d)):
+            part.violation({"kind": "stated_target_times_x_differs", "case": tag.split(":")[0]},
+                           dict(wit, x=str(got), factor=np_.get("factor"), divfactor=np_.get("divfactor"),
+                                unit=np_.get("unit"), source=str(lv.v)),
+                           "x times the target as stated in the reply is not the source value")
+            return None
+        part.count("stated_target_checked")
+    except (P.Unjudgeable, R.OutOfScope, ValueError):
+        part.count("stated_target_unjudgeable")
     part.count("converted_ok")
     part.seen(tag + "|" + query)
     part.sample({"query": query, "x": str(want)[:60]})
@@ -253,7 +270,17 @@ def gen_compound(rng, reg, classes, class_list):
         t = "%s/%d" % (t, rng.randrange(2, 9))
     elif r < 0.45:
         t = "newname%d = %s" % (rng.randrange(100), t)
-    elif r < 0.55 and "/" not in t and "/" not in s:
+    elif r < 0.55 and len(tgt) == 1 and not mismatch:
+        # a constant under a (negative) power: (2 s)^-1, 10^-3 m, (1|2 ft)^-2
+        u2, p = tgt[0]
+        rn = render_name(u2)
+        if rn is not None:
+            k = rng.choice(["2", "10", "1|2", "3"])
+            if rng.random() < 0.5:
+                t = "(%s %s)^%d" % (k, rn, p)
+            else:
+                t = "%s^%d %s^%d" % (k if "|" not in k else "(" + k + ")", p, rn, p)
+    elif r < 0.6 and "/" not in t and "/" not in s:
         # targets / sources built with roots: rink computes those in machine floats
         k = rng.choice([2, 3])
         if rng.random() < 0.5:
